@@ -11,7 +11,13 @@ import (
 func NewReconcilerForVerif(t transactionstore.Store, p proposalstore.Store) *Reconciler {
 	return &Reconciler{transactions: t, proposals: p}
 }
-func NewWatcherForVerif(t transactionstore.Store) *Watcher { return &Watcher{transactions: t} }
+func NewWatcherForVerif(t transactionstore.Store, p ...proposalstore.Store) *Watcher {
+	w := &Watcher{transactions: t}
+	if len(p) > 0 {
+		w.proposals = p[0]
+	}
+	return w
+}
 func NewProposalWatcherForVerif(p proposalstore.Store) *ProposalWatcher {
 	return &ProposalWatcher{proposals: p}
 }
